@@ -390,6 +390,23 @@ func (g *Generator) generateWithoutSaving(parents []*theTypeInfo, t reflect.Type
 						return nil, err
 					}
 				}
+				if ref != nil && fieldInfo.JSONString {
+					// `json:",string"`: encoding/json writes a boolean, number or string field (or a
+					// pointer to one) as a JSON string holding its JSON text
+					ft := fType
+					if ft.Name() == "" && ft.Kind() == reflect.Ptr {
+						ft = ft.Elem()
+					}
+					switch ft.Kind() {
+					case reflect.Bool, reflect.String,
+						reflect.Int, reflect.Int8, reflect.Int16, reflect.Int32, reflect.Int64,
+						reflect.Uint, reflect.Uint8, reflect.Uint16, reflect.Uint32, reflect.Uint64, reflect.Uintptr,
+						reflect.Float32, reflect.Float64:
+						quoted := openapi3.NewStringSchema()
+						quoted.Nullable = fType.Kind() == reflect.Ptr
+						ref = openapi3.NewSchemaRef("", quoted)
+					}
+				}
 				if ref != nil {
 					g.SchemaRefs[ref]++
 					schema.WithPropertyRef(fieldName, ref)
